@@ -43,6 +43,19 @@ Definition esort (l : list (name * (bool * Z))) := fold_right einsert [] l.
 
 Definition hres_ok (h : hres) : bool := match h with HErr _ => false | _ => true end.
 
+(* AbstractPathIO.iter_by_block(block_size), the loop of retr_worker: read(block_size) until b"";
+   `retrieve` below issues one read(-1) instead -- Proofs/BackendsMatrix.v read_blocks_concat: the
+   blocks concatenate to exactly that, for every block size *)
+Fixpoint read_blocks (fuel : nat) (data : bytes) (pos bs : Z) : list bytes :=
+  match fuel with
+  | O => []
+  | S k =>
+      match read_at data pos bs with
+      | [] => []
+      | b => b :: read_blocks k data (pos + zlen b) bs
+      end
+  end.
+
 Section Srv.
   Variable run : node -> fsop -> result * node.
 
